@@ -1669,6 +1669,8 @@ class MindsDBParser(Parser):
     def kw_parameter(self, p):
         key = getattr(p, 'identifier', None) or getattr(p, 'identifier0', None)
         assert key is not None
+        if any(isinstance(part, Star) for part in key.parts):
+            raise ParsingException(f'Parameter name can not contain *: {str(key)}')
         key = '.'.join(key.parts)
         return {key:p[2]}
 
